@@ -1,5 +1,6 @@
 (* Props/C02_src.v — source tie for C02: the Gallina definitions that harness/gen/pysrc.py regenerates on every run from
-   the CURRENT text of IPNetwork's attribute properties, IPAddress.is_hostmask / is_netmask and the setters _set_value / _set_prefixlen
+   the CURRENT text of IPNetwork's attribute properties, IPAddress.is_hostmask / is_netmask / netmask_bits (with its `while`
+   loop, a generated Fixpoint on fuel) and the setters _set_value / _set_prefixlen
    (coq/Gen/pysrc_gen.v) are equal to the hand-written model functions that the theorems of Props/C02.v are about.
    A source edit that changes one of these methods changes the generated term and this theorem stops compiling.
    Nothing but the statement closed by `exact`, followed by Print Assumptions. *)
@@ -7,6 +8,10 @@ From NV Require Import Base.Tac Base.PyVal Model.Ip Model.SrcPrelude Gen.pysrc_g
 Open Scope Z_scope.
 
 Theorem C02_source_tie :
+  (forall ver w v, src_IPAddress_netmask_bits ver w v = netmask_bits w v) /\
+  (forall fuel numbits i_val,
+     src_IPAddress_netmask_bits_loop1 fuel numbits i_val =
+       match nb_loop fuel i_val numbits with None => Raise OutOfFuel | Some n => Ok n end) /\
   (forall ver w v p,
      src_IPNetwork_hostmask_int ver w v p = hostmask_int w p /\
      src_IPNetwork_netmask_int ver w v p = netmask_int w p /\
